@@ -201,7 +201,10 @@ class extract_visitor(NodeVisitor):
         self.flow = self.make_flow('join', [orelse] + handlers)
         self.flow.scope.flow = self.flow
         if hasattr(node, 'finalbody'):
-            self.visit_in_flow(node.finalbody, self.flow)
+            # continue in the region the finally body ends in (it may contain
+            # compound statements of its own)
+            self.flow = self.visit_in_flow(node.finalbody, self.flow)
+            self.flow.scope.flow = self.flow
 
     visit_Try = visit_TryExcept
 
